@@ -23,8 +23,8 @@ def tree_hash(root):
             for f in sorted(fs):
                 fp = os.path.join(d, f)
                 h.update(fp.encode()); h.update(open(fp, "rb").read())
-    for f in ("gamafacts.cc", "instantiate_all.cpp", "facts.py"):
-        h.update(open(os.path.join(HERE, "..", "sa", f), "rb").read())
+    for f in ("sa/instantiate_all.cpp", "sa/facts.py", "bin/gamafacts"):
+        h.update(open(os.path.join(HERE, "..", f), "rb").read())
     return h.hexdigest()[:16]
 
 
